@@ -55,8 +55,10 @@ let () =
         if ar.a_fact then
           (match fact_applied pr (pfuel pr) ar.a_pred with
            | Some l ->
-             if List.map int_of_n l <> List.map (fun (p, _) -> int_of_n p) ar.a_rules then
-               Printf.printf "factrules-mismatch %d model=%s impl=%s\n" (int_of_n ar.a_id)
+             let ml = List.map int_of_n l and il = List.map (fun (p, _) -> int_of_n p) ar.a_rules in
+             let rec sublist a b = match a, b with [], _ -> true | _, [] -> false | x :: a', y :: b' -> if x = y then sublist a' b' else sublist a b' in
+             if ml <> il then
+               Printf.printf "%s %d model=%s impl=%s\n" (if sublist il ml then "factrules-missing" else "factrules-mismatch") (int_of_n ar.a_id)
                  (String.concat "," (List.map (fun x -> string_of_int (int_of_n x)) l))
                  (String.concat "," (List.map (fun (p, _) -> string_of_int (int_of_n p)) ar.a_rules))
            | None -> Printf.printf "factrules-mismatch %d model=outoffuel\n" (int_of_n ar.a_id))) so.s_atoms;
